@@ -107,6 +107,19 @@ Theorem C10_dispatch_only_eligible :
       forall s, In s (dispatch_set g') <-> (In s (g_steps g') /\ eligible_spec g' s = true).
 Proof. exact dispatch_only_eligible_repo. Qed.
 
+(* The WHERE clause of SELECT_NEXT_STEP is TRANSLATED conjunct by conjunct (GenSched.sn_where; the frame -- FROM, JOIN,
+   ORDER BY, LIMIT -- is compared).  With the four conjuncts of the repository (generated fact sn_where_repo) the
+   query selects exactly the eligible steps of a snapshot whose cached attributes are correct ... *)
+Theorem C10_select_next_step_selects_the_eligible_steps :
+  forall g s, AllCorrect g -> HasHashInv g -> In s (g_steps g) ->
+    (In s (dispatch_set_q sn_full [RuRunning] g) <-> eligible_spec g s = true).
+Proof. exact dispatch_set_q_full_is_eligible. Qed.
+(* ... and without `NOT node.detached` it hands out a detached step *)
+Theorem C10_select_next_step_refuted_without_attached_conjunct :
+  exists g, WF g /\ Acyclic g /\ AllCorrect g /\ HasHashInv g /\
+    exists s, In s (dispatch_set_q sn_no_attached [RuRunning] g) /\ s_detached s = true /\ eligible_spec g s = false.
+Proof. exact dispatch_without_attached_conjunct_refuted. Qed.
+
 (* The named-resource term of the dispatch query is TRANSLATED (GenSched.ru_where: the conjuncts that say which
    steps' units are subtracted from the available ones).  With the conjuncts [RuRunning] -- the units of every
    RUNNING step, attached or not: the repository's query, generated fact ru_where_repo -- the dispatch set of a
@@ -315,6 +328,16 @@ Theorem C10_del_dep_need_flag_refuted_for_sink_only_trigger :
     forall pol, exists g', update_meta_with pol (del_dep_with trg_dep_del_sink_only g d) = Some g' /\
       ~ AllCorrect g' /\ exists s, In s (dispatch_set g') /\ eligible_spec g' s = false.
 Proof. exact del_dep_sink_only_refuted. Qed.
+
+(* The narrowed form of that statement ("... AND NOT EXISTS (another attached consumer of the file)", translated as
+   the target TProducersOfSourceUnlessShared) is refuted as well: _implied_need is a MAX over the consumers, the one
+   that remains may be an OPTIONAL step that nothing needs. *)
+Theorem C10_del_dep_need_flag_refuted_for_trigger_skipping_shared_files :
+  exists g d, WF g /\ Acyclic g /\ AllCorrect g /\ HasHashInv g /\
+    ~ FlagInv_need (del_dep_with trg_dep_del_unless_shared g d) /\
+    forall pol, exists g', update_meta_with pol (del_dep_with trg_dep_del_unless_shared g d) = Some g' /\
+      ~ AllCorrect g' /\ exists s, In s (dispatch_set g') /\ eligible_spec g' s = false.
+Proof. exact del_dep_unless_shared_refuted. Qed.
 
 (* ---- flag soundness of the primitive mutations, with the trigger bodies of the repository ---- *)
 
